@@ -55,10 +55,19 @@ func c12Verify(pk *gabikeys.PublicKey, p *ProofD) (accepted, panicked bool) {
 		return false, false // not transportable (negative numbers): cannot reach a verifier
 	}
 	var ok1, ok2 bool
-	pan1, _ := vkit.Guard(func() { ok1 = q.Verify(pk, vfContext, vfNonce, false) })
+	// every route verifies its object twice: a verdict must not change because of what the first call left
+	// in the object (retry, or ProofD.Verify followed by ProofList.Verify)
+	pan1, _ := vkit.Guard(func() {
+		ok1 = q.Verify(pk, vfContext, vfNonce, false)
+		ok1 = q.Verify(pk, vfContext, vfNonce, false) || ok1
+		ok1 = (ProofList{q}).Verify([]*gabikeys.PublicKey{pk}, vfContext, vfNonce, false, nil) || ok1
+	})
 	q2 := &ProofD{}
 	vfJSONCopy(p, q2)
-	pan2, _ := vkit.Guard(func() { ok2 = (ProofList{q2}).Verify([]*gabikeys.PublicKey{pk}, vfContext, vfNonce, false, nil) })
+	pan2, _ := vkit.Guard(func() {
+		ok2 = (ProofList{q2}).Verify([]*gabikeys.PublicKey{pk}, vfContext, vfNonce, false, nil)
+		ok2 = (ProofList{q2}).Verify([]*gabikeys.PublicKey{pk}, vfContext, vfNonce, false, nil) || ok2
+	})
 	// third route: the Go objects are handed over directly (no wire), including whatever the sender put
 	// into fields that are not transported (MResponse)
 	q3 := &ProofD{}
@@ -71,14 +80,17 @@ func c12Verify(pk *gabikeys.PublicKey, p *ProofD) (accepted, panicked bool) {
 		}
 	}
 	var ok3 bool
-	pan3, _ := vkit.Guard(func() { ok3 = q3.Verify(pk, vfContext, vfNonce, false) })
+	pan3, _ := vkit.Guard(func() {
+		ok3 = q3.Verify(pk, vfContext, vfNonce, false)
+		ok3 = q3.Verify(pk, vfContext, vfNonce, false) || ok3
+	})
 	return ok1 || ok2 || ok3, pan1 || pan2 || pan3
 }
 
 func TestVerifC12Crypto(t *testing.T) {
 	r := vkit.Start(t, "C12", "crypto-layer", 240*time.Second, 1200*time.Second)
 	defer r.Finish()
-	r.Rule = "credential (50, tag, 20, tag) x disclosure sets x true statements (>=,<=; 3 and 4 squares; factors 1,3) on attributes 1 and 3: honest proofs; false statements at bound-+1 must not be creatable; every single-field alteration of every range proof (Cs, ds, vs, v5, l_d, sign, a, k incl. k moved across the boundary); every transplant (to another hidden index, a disclosed index below / above the largest hidden index, unused base, len(R), 1000, -1; from another credential; moved and copied, also with the non-transported attribute-response field pre-set by the sender); consistent-lie forgeries (a well-formed range proof about a value satisfying the false statement, with the attribute's or a fresh randomiser, carrying its own response); three verification routes (wire copy, wire copy in a list, Go objects handed over directly); non-trivial = distinct (base proof, alteration); oracle (semantic): accepted => every carried range proof is on a hidden existing index and its reported statement is true of the signed value; honest => accepted"
+	r.Rule = "credential (50, tag, 20, tag) x disclosure sets x true statements (>=,<=; 3 and 4 squares; factors 1,3) on attributes 1 and 3: honest proofs; false statements at bound-+1 must not be creatable; every single-field alteration of every range proof (Cs, ds, vs, v5, l_d, sign, a, k incl. k moved across the boundary); every transplant (to another hidden index, a disclosed index below / above the largest hidden index, unused base, len(R), 1000, -1; from another credential; moved and copied, also with the non-transported attribute-response field pre-set by the sender); consistent-lie forgeries (a well-formed range proof about a value satisfying the false statement, with the attribute's or a fresh randomiser, carrying its own response); three verification routes (wire copy, wire copy in a list, Go objects handed over directly), each verifying its object twice; non-trivial = distinct (base proof, alteration); oracle (semantic): accepted => every carried range proof is on a hidden existing index and its reported statement is true of the signed value; honest => accepted"
 	table := rangeproof.GenerateSquaresTable(4096)
 	for _, keyName := range vkit.Pick([]string{"toyA"}, []string{"toyA", "k1024a"}) {
 		k := vfK(keyName)
